@@ -106,6 +106,17 @@ def sameOrNoCrs (g : GeoBox) (crs : Nat) : Bool := crs == 0 || g.crs == 0 || crs
 
 def noReproj : Nat → Nat → Pt → Pt := fun _ _ p => p
 
+/-- both sides carry a CRS and the tags differ: the only case in which a reprojection table is consulted -/
+def otherCrs (g : GeoBox) (crs : Nat) : Bool := crs != 0 && g.crs != 0 && crs != g.crs
+
+def splitLast? (toks : List String) : Option (List String × String) :=
+  match toks.reverse with
+  | [] => none
+  | t :: rest => some (rest.reverse, t)
+
+def parseKind? (s : String) : Option CrsKind :=
+  if s = "N" then some .none else if s = "G" then some .geographic else if s = "P" then some .projected else none
+
 def runGlue (op : String) (g : GeoBox) (args : List String) : Option String :=
   match op, args with
   | "rsz", [s] => do
@@ -161,6 +172,32 @@ def runGlue (op : String) (g : GeoBox) (args : List String) : Option String :=
     let cps ← parseList? parseCp? cps
     let dst ← parseNat? dst
     pure (fmtRes (fun (o : GeoBox × List (Pt × Pt)) => s!"{fmtGB o.1} {fmtList fmtCp o.2}") (gcpToCrs (fun w => w) g cps dst))
+  | "rotq", [k] => do
+    let k ← parseInt? k
+    pure (fmtGB (rotateQuarter g k))
+  | "giRT", toks => do
+    let (rt, table) ← splitLast? toks
+    let r ← parseRegion? rt
+    let table ← parseList? parseCp? table
+    if otherCrs g r.crs && tableCovers table r.pts then pure (fmtRes fmtGB (getitem (tableReproj table) g (.region r))) else none
+  | "enclT", toks => do
+    let (rt, table) ← splitLast? toks
+    let r ← parseRegion? rt
+    let table ← parseList? parseCp? table
+    if otherCrs g r.crs && tableCovers table r.pts then pure (fmtRes fmtGB (enclosingArg (tableReproj table) g r)) else none
+  | "projT", [crs, pts, table] => do
+    let crs ← parseNat? crs
+    let pts ← parseList? parsePt? pts
+    let table ← parseList? parseCp? table
+    if otherCrs g crs && tableCovers table pts then
+      pure (fmtRes (fun (o : Nat × List Pt) => s!"{o.1} {fmtList fmtPtS o.2}") (project (tableReproj table) g crs pts))
+    else none
+  | "cmeta", [k] => do
+    let k ← parseKind? k
+    pure (fmtRes (fmtList (fun (e : String × Rat) => s!"{e.1}:{fmtRat e.2}")) (coordsMeta g k))
+  | "gextk", [k] => do
+    let k ← parseKind? k
+    pure (fmtBool (geographicExtentIsExtent k))
   | "gcpres", [B, n, m] => do
     let B ← parseAff? B; let n ← parseRat? n; let m ← parseRat? m
     pure (fmtRes fmtPt (gcpResolution B g n m))
@@ -279,6 +316,11 @@ def run (args : List String) : Option String :=
     let g ← parseGB? ny nx aff crs
     let w ← parseGB? ny2 nx2 aff2 crs2
     if sameOrNoCrs g w.crs then pure (fmtRes fmtGB (getitem noReproj g (.gbox w))) else none
+  | ["giGT", ny, nx, aff, crs, ny2, nx2, aff2, crs2, table] => do
+    let g ← parseGB? ny nx aff crs
+    let w ← parseGB? ny2 nx2 aff2 crs2
+    let table ← parseList? parseCp? table
+    if otherCrs g w.crs && tableCovers table (extent w) then pure (fmtRes fmtGB (getitem (tableReproj table) g (.gbox w))) else none
   | ["cropGB", ny, nx, aff, crs, ny2, nx2, aff2, crs2] => do
     let g ← parseGB? ny nx aff crs
     let w ← parseGB? ny2 nx2 aff2 crs2
